@@ -332,50 +332,64 @@ def hdrLines (d : Dict) : List (String × String) :=
     | .strs l => l.map fun v => (kv.1, v)
     | v => [(kv.1, strOf v)]
 
+def insertSorted (x : String) : List String → List String
+  | [] => [x]
+  | y :: r => if x ≤ y then x :: y :: r else y :: insertSorted x r
+
+def sortStrings (l : List String) : List String := l.foldr insertSorted []
+
 def renderResp (status : String) (hdrs : List (String × String)) (body : String) : String :=
-  let lines := (hdrs.map fun kv => kv.1 ++ ": " ++ kv.2).mergeSort (fun x y => decide (x ≤ y))
+  let lines := sortStrings (hdrs.map fun kv => kv.1 ++ ": " ++ kv.2)
   status ++ "\n" ++ "\n".intercalate lines ++ "\n\n" ++ body
 
-/-- the end of `wsgi`: body suppression, `start_response(response._status_line, response.headerlist)` -/
+def emitResp (a : AppId) (status : String) (hl : List (String × String)) (body : String) (k : Prog) : Prog :=
+  .emit a ("w:" ++ renderResp status hl body) k
+
+/-- the cookie part of `headerlist`: `if self._cookies: for c in self._cookies.values(): ...` -/
+def finishCookies (a : AppId) (status : String) (hl : List (String × String)) (body : String) (k : Prog) : Prog :=
+  .step a (.fget .response "_cookies" rCookies) fun rk =>
+    match rk with
+    | .ref =>
+      -- a non-empty jar is truthy; then `self._cookies.values()` reads the attribute again
+      .step a (.dOp rCookies .items) fun rj =>
+        let jar : Dict := match rj with | .items d => d | _ => []
+        if jar.isEmpty then emitResp a status hl body k
+        else
+          .step a (.fget .response "_cookies" rCookies) fun _ =>
+          emitResp a status (hl ++ jar.map fun kv => ("Set-Cookie", strOf kv.2)) body k
+    | _ => emitResp a status hl body k
+
+/-- `start_response(response._status_line, response.headerlist)` -/
+def finishHeaders (a : AppId) (body : String) (k : Prog) : Prog :=
+  .step a (.fget .response "_status_line" rTmp) fun rl =>
+  let status := strOf (resVal rl)
+  -- headerlist: headers = self._headers.items(); bad_headers = self.bad_headers.get(self._status_code)
+  .step a (.fget .response "_headers" rCookies) fun _ =>
+  .step a (.dOp rCookies .items) fun ri =>
+  let items : Dict := match ri with | .items d => d | _ => []
+  .step a (.fget .response "_status_code" rTmp) fun rc =>
+  let code : Int := match rc with | .val (.int i) => i | _ => 0
+  let bad := badHeaders code
+  if bad.isEmpty then
+    -- need_ctype = 'Content-Type' not in self._headers
+    .step a (.fget .response "_headers" rTmp) fun _ =>
+    .step a (.dOp rTmp (.has "Content-Type")) fun rh =>
+      finishCookies a status
+        (if rh == .val (.bool true) then hdrLines items
+         else hdrLines items ++ [("Content-Type", defaultContentType)]) body k
+  else
+    finishCookies a status (hdrLines (items.filter fun kv => !bad.contains (titleCase kv.1))) body k
+
+/-- the end of `wsgi`: body suppression, then `start_response` -/
 def finish (a : AppId) (isHead : Bool) (body : String) (k : Prog) : Prog :=
   -- 100 <= response._status_code < 200 or response._status_code in {204, 304} or HEAD
   .step a (.fget .response "_status_code" rTmp) fun r1 =>
   let c1 : Int := match r1 with | .val (.int i) => i | _ => 0
-  let cont (noBody : Bool) : Prog :=
-    let body := if noBody || isHead then "" else body
-    .step a (.fget .response "_status_line" rTmp) fun rl =>
-    -- headerlist
-    .step a (.fget .response "_headers" rCookies) fun _ =>
-    .step a (.dOp rCookies .items) fun ri =>
-    let items : Dict := match ri with | .items d => d | _ => []
-    .step a (.fget .response "_status_code" rTmp) fun rc =>
-    let code : Int := match rc with | .val (.int i) => i | _ => 0
-    let bad := badHeaders code
-    let withCookies (hl : List (String × String)) : Prog :=
-      .step a (.fget .response "_cookies" rCookies) fun rk =>
-        match rk with
-        | .ref =>
-          -- `if self._cookies:` is true for a non-empty jar; then `self._cookies.values()`
-          .step a (.dOp rCookies .items) fun rj =>
-            let jar : Dict := match rj with | .items d => d | _ => []
-            if jar.isEmpty then .emit a ("w:" ++ renderResp (strOf (resVal rl)) hl body) k
-            else
-              .step a (.fget .response "_cookies" rCookies) fun _ =>
-              .emit a ("w:" ++ renderResp (strOf (resVal rl))
-                (hl ++ jar.map fun kv => ("Set-Cookie", strOf kv.2)) body) k
-        | _ => .emit a ("w:" ++ renderResp (strOf (resVal rl)) hl body) k
-    if bad.isEmpty then
-      -- need_ctype = 'Content-Type' not in self._headers
-      .step a (.fget .response "_headers" rTmp) fun _ =>
-      .step a (.dOp rTmp (.has "Content-Type")) fun rh =>
-        let hl := hdrLines items
-        withCookies (if rh == .val (.bool true) then hl else hl ++ [("Content-Type", defaultContentType)])
-    else
-      withCookies (hdrLines (items.filter fun kv => !bad.contains (titleCase kv.1)))
-  if 100 ≤ c1 && c1 < 200 then cont true
+  if 100 ≤ c1 && c1 < 200 then finishHeaders a "" k
   else
     .step a (.fget .response "_status_code" rTmp) fun r2 =>
-    cont (match r2 with | .val (.int i) => i == 204 || i == 304 | _ => false)
+    let noBody := match r2 with | .val (.int i) => i == 204 || i == 304 | _ => false
+    finishHeaders a (if noBody || isHead then "" else body) k
 
 /-- one handler statement; `nest` serves a nested request (one level less of nesting); `cs` are the
 copies the handler has made so far (the handler's list `copies`) -/
@@ -504,6 +518,17 @@ def serve : Nat → Req → Prog → Prog
       | .notAllowed line text allow => castAndFinish (.err 405 line text [("Allow", allow)])
       | .badPath _ => k
 
+/-- a handler statement that stays inside its own application -/
+def HOp.isLocal : HOp → Bool
+  | .nested _ => false
+  | .construct _ => false
+  | _ => true
+
+/-- a request of application `a` whose handler does not call into or construct another application -/
+def Req.LocalTo (a : AppId) : Req → Prop
+  | .mk b _ (.handler ops _) => b = a ∧ ∀ op ∈ ops, op.isLocal = true
+  | .mk b _ _ => b = a
+
 def maxNesting : Nat := 4
 
 def itemProg : Item → Prog → Prog
@@ -568,10 +593,6 @@ def runEvents (v : Variant) (m : Machine) : List Ev → Machine × List ThreadId
     let (m1, s1) := runEv v m e
     let (m2, s2) := runEvents v m1 es
     (m2, s1 ++ s2)
-
-/-- the initial machine: nothing constructed, thread `t` runs `progs t` -/
-def Machine.start (progs : ThreadId → Prog) : Machine :=
-  ⟨Heap.empty, fun t => Thread.init (progs t), []⟩
 
 /-- label of a visible step, as the harness' trace hook names it -/
 def label (multi : Bool) (ev : Event) : String :=
